@@ -337,7 +337,14 @@ func c40run(r *vh.Run, y c40layout) {
 			b := pending[0]
 			pending = pending[1:]
 			want := c40mkref(b)
-			if err := c.l.AddBlock(b); err != nil {
+			var err error
+			if len(b.Transactions) == 0 {
+				// an empty block's state root is not compared by AddBlock: skip the separate pre-execution
+				err = c.l.ls.AddBlock(b, nil, common.UINT256_EMPTY)
+			} else {
+				err = c.l.AddBlock(b)
+			}
+			if err != nil {
 				r.Need(false, "fixture: AddBlock %d failed: %v (%s)", b.Header.Height, err, y)
 			}
 			c.ref = append(c.ref, want)
@@ -388,12 +395,12 @@ func c40layouts(r *vh.Run) []c40layout {
 		}
 		return out
 	}
-	// thorough: (a) all 3^7 patterns x the four DESIGN restart points, AddBlock mode;
-	// (b) all 3^3 patterns on {2000,2001,2002} (others 1) x all 7 schedules x both modes
+	// thorough: (a) all 3^7 patterns, restart schedule and mode rotating with the pattern index;
+	// (b) all 3^3 patterns on {2000,2001,2002} x all 7 schedules x both modes (full product)
+	n := 0
 	vh.Odometer([]int{3, 3, 3, 3, 3, 3, 3}, func(d []int) bool {
-		for ri := 0; ri < 4; ri++ {
-			out = append(out, c40layout{Pattern: append([]int{}, d...), Restarts: c40RestartMenu[ri], Mode: 0})
-		}
+		out = append(out, c40layout{Pattern: append([]int{}, d...), Restarts: c40RestartMenu[n%len(c40RestartMenu)], Mode: (n / len(c40RestartMenu)) % 2})
+		n++
 		return true
 	})
 	vh.Odometer([]int{3, 3, 3}, func(d []int) bool {
@@ -407,11 +414,33 @@ func c40layouts(r *vh.Run) []c40layout {
 	return out
 }
 
+// c40stride reorders the layouts by a fixed stride coprime to their number, so
+// that a run stopped by its deadline has seen layouts from all over the
+// product rather than one corner of it (still the same set when complete).
+func c40stride(in []c40layout) []c40layout {
+	n := len(in)
+	step := 389
+	for n%step == 0 {
+		step += 2
+	}
+	out := make([]c40layout, 0, n)
+	seen := make([]bool, n)
+	for i, j := 0, 0; i < n; i++ {
+		for seen[j] {
+			j = (j + 1) % n
+		}
+		seen[j] = true
+		out = append(out, in[j])
+		j = (j + step) % n
+	}
+	return out
+}
+
 func TestVerif_C40(t *testing.T) {
 	r := vh.Start(t, "C40", "queries")
 	defer r.Finish()
 	r.Rule("one real on-disk solo chain of 2005 blocks per layout = (tx count in {0,1,2} at each of heights {1,2,1999..2003}; native transfer, then EIP-155 tx) x (restart schedule) x (blocks only | headers synced 96 ahead); at checkpoints {0..3,10..12 (block LRU=10),1998..2004 (index window=2000)} and before+after every restart every height 0..tip is queried through GetBlockHash/GetBlockByHeight/GetBlockByHash/GetHeaderByHash/GetHeaderByHeight/IsContainBlock and every tx through GetTransaction/IsContainTransaction and compared with the bytes kept at commit; heights above the tip and header-only/uncommitted blocks must give no block. evaluations = (height,checkpoint) query sets; classes = which layer answered (index cache|store fallback, LRU|disk, tx cache|disk), tx count, restart kind")
-	r.Bound(fmt.Sprintf("chain length %d; quick: 16 layouts (9 patterns, 7 restart schedules, both modes); thorough: 3^7 patterns x 4 restart points + 27 boundary patterns x 7 schedules x 2 modes", c40Len+1))
+	r.Bound(fmt.Sprintf("chain length %d; quick: 16 layouts (9 patterns, 7 restart schedules, both modes); thorough: 3^7 patterns (restart schedule and mode rotating with the pattern index) + full product 27 boundary patterns x 7 restart schedules x 2 modes", c40Len+1))
 	r.Assume("solo consensus, one bookkeeper; transactions are distinct (a tx is never included twice); no block pruning")
 
 	var rc c40layout
@@ -420,7 +449,12 @@ func TestVerif_C40(t *testing.T) {
 		return
 	}
 	ls := c40layouts(r)
-	r.Set("layouts", int64(len(ls)))
+	if r.Thorough() {
+		ls = c40stride(ls)
+	}
+	if r.R.Shard == 0 {
+		r.Set("layouts", int64(len(ls)))
+	}
 	done := int64(0)
 	for i, y := range ls {
 		if !r.Mine(i) {
